@@ -67,7 +67,7 @@ def mk_seg(kind, params):
 
 def detect_variant():
     """which QuadraticBezier.length is installed?  Probes (not judged cases):
-       nl  — branch `elif abs(a) < 1e-8*abs(b)` present (repair C06-quad-length-near-linear);
+       nl  — branch `elif abs(a) < 1e-6*abs(b)` present (repair C06-quad-length-near-linear);
        fin — a non-finite closed form goes to the fallback formulas (repair
              C06-quad-length-collinear-nonfinite)."""
     from svgpathtools import QuadraticBezier
@@ -603,13 +603,13 @@ def run(rep, tier, seed, replay=None):
                     arc_meta.append((kind, params, sub, t0, t1, vals, tol, len(ps)))
                 # ---------- closed-form models (line, quad)
                 if kind == 'line' or (kind == 'quad' and not vanish and not sub.startswith(('near-collinear', 'collinear'))):
-                    # forward error of the binary64 closed form grows like eps |b|/|a| (C06_quad_* are exact
-                    # statements; this tie is about the formula, not its conditioning)
-                    cond = 1.0
+                    # the binary64 closed form carries an absolute rounding error ~ eps |b|^2/|a| (cancellation of
+                    # terms of size beta |b|); C06_quad_* are exact statements: this tie is about the formula
+                    extra = 0.0
                     if kind == 'quad':
                         a_ = params[0] - 2 * params[1] + params[2]; b_ = 2 * (params[1] - params[0])
-                        cond = max(1.0, 1e-6 * abs(b_) / abs(a_)) if abs(a_) >= 1e-12 else 1.0
-                    ctol = 1e-9 * cond * max(vals[0][1], scale * 1e-3)
+                        extra = 1e-14 * abs(b_) ** 2 / abs(a_) if abs(a_) >= 1e-12 else 0.0
+                    ctol = 1e-9 * max(vals[0][1], scale * 1e-3) + extra
                     closed_terms.append('(%d, %s, %s, %s, %s, %s)' % (
                         0 if kind == 'line' else 1, coq_list([cbf(p) for p in params]), bf(t0), bf(t1), bf(ctol), bf(vals[0][1])))
                     closed_meta.append((kind, params, sub, t0, t1, vals[:1], ctol))
